@@ -69,10 +69,13 @@ var coqOpNames = []string{"UPos", "UNeg", "UCpl", "UNot", "UVoid", "UTypeof", "U
 	"BNullish", "BLogOr", "BLogAnd", "BBitOr", "BBitAnd", "BBitXor", "BComma",
 	"BAssign", "BAddAssign", "BSubAssign", "BMulAssign", "BDivAssign", "BRemAssign", "BPowAssign",
 	"BShlAssign", "BShrAssign", "BUShrAssign", "BBitOrAssign", "BBitAndAssign", "BBitXorAssign",
-	"BNullishAssign", "BLogOrAssign", "BLogAndAssign", "UAwait"}
+	"BNullishAssign", "BLogOrAssign", "BLogAndAssign", "UAwait", "UYield"}
 
 // EAwait is not an operator of js_ast.OpTable; the model treats it as one more keyword prefix operator
 const opAwait = js_ast.BinOpLogicalAndAssign + 1
+
+// EYield with an operand (no star): one more keyword prefix operator of the model, of level LAssign
+const opYield = js_ast.BinOpLogicalAndAssign + 2
 
 func (e *xexpr) coq(mw bool) string {
 	switch e.k {
@@ -176,6 +179,9 @@ func (tb *treeBuilder) build(e *xexpr) js_ast.Expr {
 		if e.op == opAwait {
 			return js_ast.Expr{Data: &js_ast.EAwait{Value: tb.build(e.a)}}
 		}
+		if e.op == opYield {
+			return js_ast.Expr{Data: &js_ast.EYield{ValueOrNil: tb.build(e.a)}}
+		}
 		return js_ast.Expr{Data: &js_ast.EUnary{Op: e.op, Value: tb.build(e.a), WasOriginallyTypeofIdentifier: true, WasOriginallyDeleteOfIdentifierOrPropertyAccess: true}}
 	default:
 		return js_ast.Expr{Data: &js_ast.EBinary{Op: e.op, Left: tb.build(e.a), Right: tb.build(e.b)}}
@@ -216,12 +222,13 @@ func printTreeForInit(e *xexpr, minifyWhitespace bool) (string, string) {
 }
 
 // a top-level "await" turns the file into a module (strict code: "delete a", "with", octal ... become errors for
-// reasons outside the modelled fragment), so trees with await are checked by the correspondence only
+// reasons outside the modelled fragment) and "yield" is an operator only inside a generator, so trees with await
+// or yield are checked by the correspondence only
 func containsAwait(e *xexpr) bool {
 	if e == nil {
 		return false
 	}
-	if e.k == xUn && e.op == opAwait {
+	if e.k == xUn && (e.op == opAwait || e.op == opYield) {
 		return true
 	}
 	for _, a := range e.args {
@@ -339,7 +346,7 @@ func genTarget(r *Rng, depth int) *xexpr {
 	return &xexpr{k: xId, s: identPool[r.Intn(nTargetIdents)]}
 }
 
-var prefixOps = []js_ast.OpCode{js_ast.UnOpPos, js_ast.UnOpNeg, js_ast.UnOpCpl, js_ast.UnOpNot, js_ast.UnOpVoid, js_ast.UnOpTypeof, js_ast.UnOpDelete, js_ast.UnOpPreDec, js_ast.UnOpPreInc, opAwait}
+var prefixOps = []js_ast.OpCode{js_ast.UnOpPos, js_ast.UnOpNeg, js_ast.UnOpCpl, js_ast.UnOpNot, js_ast.UnOpVoid, js_ast.UnOpTypeof, js_ast.UnOpDelete, js_ast.UnOpPreDec, js_ast.UnOpPreInc, opAwait, opYield}
 
 // operators whose gluing is delicate get extra weight
 var hotBin = []js_ast.OpCode{js_ast.BinOpAdd, js_ast.BinOpSub, js_ast.BinOpLt, js_ast.BinOpGt, js_ast.BinOpDiv, js_ast.BinOpIn, js_ast.BinOpInstanceof, js_ast.BinOpShl, js_ast.BinOpPow, js_ast.BinOpNullishCoalescing, js_ast.BinOpLogicalOr}
@@ -547,6 +554,20 @@ func gluingGrid() []*xexpr {
 		bin(js_ast.BinOpNullishCoalescing, bin(js_ast.BinOpLogicalOr, lx, id("a")), id("b")), idx(bin(js_ast.BinOpAdd, lx, id("a")), id("b")), dot(cond(lx, id("a"), id("b")), "e"), call(bin(js_ast.BinOpComma, lx, id("a"))))
 	for _, b := range bins {
 		out = append(out, bin(b, lx, id("a")))
+	}
+	// yield (with operand): an AssignmentExpression; its operand is printed at LYield and inherits forbidIn
+	yl := func(a *xexpr) *xexpr { return un(opYield, a) }
+	ainb := bin(js_ast.BinOpIn, id("a"), id("b"))
+	out = append(out, yl(id("a")), yl(yl(id("a"))), yl(ainb), yl(bin(js_ast.BinOpAssign, id("a"), yl(ainb))), yl(cond(ainb, ainb, ainb)), yl(bin(js_ast.BinOpComma, id("a"), id("b"))), bin(js_ast.BinOpComma, yl(id("a")), yl(id("b"))),
+		bin(js_ast.BinOpAssign, id("a"), yl(id("b"))), bin(js_ast.BinOpAddAssign, id("a"), yl(ainb)), cond(yl(id("a")), yl(id("b")), yl(id("c"))), cond(id("a"), yl(ainb), yl(ainb)), call(id("f"), yl(id("a")), yl(id("b"))), call(yl(id("a"))), nw(yl(id("a"))), nw(id("f"), yl(id("a"))),
+		idx(id("a"), yl(id("b"))), idx(yl(id("a")), id("b")), dot(yl(id("a")), "e"), un(js_ast.UnOpNot, yl(id("a"))), un(js_ast.UnOpTypeof, yl(id("a"))), yl(un(js_ast.UnOpNot, id("a"))), yl(un(js_ast.UnOpPostInc, id("a"))), yl(un(js_ast.UnOpPreDec, id("a"))),
+		yl(&xexpr{k: xRe, s: "x", f: "g"}), yl(&xexpr{k: xNum, s: "1", value: 1}), yl(&xexpr{k: xNum, s: "1", value: 1, neg: true}), yl(call(id("a"))), yl(nw(id("a"))), yl(un(opAwait, id("a"))), un(opAwait, yl(id("a"))),
+		bin(js_ast.BinOpPow, yl(id("a")), id("b")), bin(js_ast.BinOpPow, id("a"), yl(id("b"))), bin(js_ast.BinOpNullishCoalescing, yl(id("a")), id("b")), bin(js_ast.BinOpIn, yl(id("a")), id("b")), bin(js_ast.BinOpIn, id("a"), yl(id("b"))))
+	for _, b := range bins {
+		out = append(out, bin(b, id("x"), yl(id("a"))))
+		if b < js_ast.BinOpAssign {
+			out = append(out, bin(b, yl(id("a")), id("x")))
+		}
 	}
 	// "in" in every position the forbidIn flag reaches or stops at (these are also printed as for-loop initialisers)
 	ain := bin(js_ast.BinOpIn, id("a"), id("b"))
